@@ -369,8 +369,48 @@ fn chk_modern_print(clvm_bytes: &[u8]) -> Option<Value> {
     }
 }
 
-pub fn search(name: &str, _seed: u64) -> Value {
+// ---- front ends never panic: all short texts over a hostile alphabet, all short byte strings
+fn chk_no_panic_text(text: &[u8]) -> Option<Value> {
+    use chialisp::classic::clvm_tools::binutils::assemble;
+    use chialisp::compiler::sexp::parse_sexp;
+    use chialisp::compiler::srcloc::Srcloc;
+    let t1 = text.to_vec();
+    if catch_unwind(move || { let _ = parse_sexp(Srcloc::start("*replay*"), t1.iter().copied()); }).is_err() {
+        return Some(hit(json!({"text_bytes": text}), "result or error".into(), "panic".into(), "compiler::sexp::parse_sexp"));
+    }
+    let t2 = String::from_utf8_lossy(text).to_string();
+    if catch_unwind(move || { let mut a = clvmr::Allocator::new(); let _ = assemble(&mut a, &t2); }).is_err() {
+        return Some(hit(json!({"text_bytes": text}), "result or error".into(), "panic".into(), "binutils::assemble (read_ir + assemble_from_ir)"));
+    }
+    None
+}
+fn chk_no_panic_bytes(data: &[u8]) -> Option<Value> {
+    let d = data.to_vec();
+    let r = catch_unwind(move || tool_deser(&d));
+    match r { Ok(Some(v)) if v == b"<panic>".to_vec() => Some(hit(json!({"bytes": data}), "result or error".into(), "panic".into(), "sexp_from_stream")), Err(_) => Some(hit(json!({"bytes": data}), "result or error".into(), "panic".into(), "sexp_from_stream")), _ => None }
+}
+
+pub fn search(name: &str, seed: u64) -> Value {
     match name {
+        "no_panic" => {
+            let alpha: &[u8] = b"().\"'\\#;0xa-\n ";
+            let n = alpha.len();
+            let mut count = 0u64;
+            for len in 0..=4usize {
+                let total = n.pow(len as u32);
+                for k in 0..total {
+                    let mut t = Vec::with_capacity(len);
+                    let mut kk = k;
+                    for _ in 0..len { t.push(alpha[kk % n]); kk /= n; }
+                    count += 1;
+                    if let Some(v) = chk_no_panic_text(&t) { return v; }
+                }
+            }
+            for a in 0u16..=255 { if let Some(v) = chk_no_panic_bytes(&[a as u8]) { return v; } for b in 0u16..=255 { if let Some(v) = chk_no_panic_bytes(&[a as u8, b as u8]) { return v; } } }
+            let mut x = seed.wrapping_mul(6364136223846793005).wrapping_add(1442695040888963407);
+            for _ in 0..20000 { x = x.wrapping_mul(6364136223846793005).wrapping_add(1442695040888963407); let d = [(x >> 8) as u8, (x >> 24) as u8, (x >> 40) as u8, (x >> 56) as u8]; if let Some(v) = chk_no_panic_bytes(&d[..3 + (x as usize & 1)]) { return v; } }
+            nf(&format!("no panic: parse_sexp and assemble on all {} texts of <= 4 symbols over a 14-symbol alphabet ( ) . " ' \\ # ; 0 x a - newline space; sexp_from_stream on all 1- and 2-byte strings and 20000 seeded 3-4 byte strings", count))
+        }
         "modern_print" | "printable" | "escape_quote" | "make_atom" => {
             for d in disasm_inputs() { if let Some(v) = chk_modern_print(&d) { return v; } }
             nf("modern printed text is read back identically by parse_sexp and by the classic assembler on the enumerated values")
